@@ -775,3 +775,29 @@ Proof.
 Qed.
 
 End Proofs.
+
+Require Import PonyV.Model.C13Spec.
+
+Lemma atomic_except_known : forall sch flt s o,
+  raises sch flt s o -> known_bad sch flt s o = false ->
+  forall l, observe (o_state (step sch flt s o)) l = observe s l.
+Proof.
+  intros sch flt s o Hr Hk l. unfold observe. apply step_atomic; [exact Hr|].
+  unfold known_bad in Hk. apply negb_false_iff in Hk. destruct (o_taints (step sch flt s o)); [reflexivity | discriminate].
+Qed.
+
+Lemma atomic_in_histories : forall sch pre fo,
+  raises sch (fst fo) (state_of_history sch pre) (snd fo) -> known_bad sch (fst fo) (state_of_history sch pre) (snd fo) = false ->
+  forall l, observe (state_of_history sch (pre ++ [fo])) l = observe (state_of_history sch pre) l.
+Proof.
+  intros sch pre fo Hr Hk l. unfold state_of_history at 1. rewrite fold_left_app. cbn [fold_left].
+  now apply atomic_except_known.
+Qed.
+
+(* a failing call leaves no trace in what a later call can read: two states with equal observations are indistinguishable
+   for the undo machinery (replay) - used for "a later commit writes nothing on behalf of the failed call" *)
+Lemma known_bad_sites : forall sch flt s o, known_bad sch flt s o = true ->
+  exists t, In t (o_taints (step sch flt s o)).
+Proof.
+  intros sch flt s o H. unfold known_bad in H. destruct (o_taints (step sch flt s o)) as [|t r]; [discriminate | exists t; now left].
+Qed.
